@@ -51,9 +51,14 @@ def sleb(v):
         out.append(b | 0x80)
 
 
+BIG_ENDIAN = False        # set by write_object for the time of one layout: multi-byte data in the target's byte order
+
+
 def le(v, n):
+    """the n bytes of v in the byte order of the file being written (little-endian unless write_object says otherwise)"""
     v &= (1 << (8 * n)) - 1
-    return [(v >> (8 * i)) & 0xff for i in range(n)]
+    b = [(v >> (8 * i)) & 0xff for i in range(n)]
+    return b[::-1] if BIG_ENDIAN else b
 
 
 class Attr:
@@ -379,9 +384,14 @@ def bytes_directive(b):
     return "\n".join(out) + "\n"
 
 
-def write_object(forest, path, symbols_asm=""):
-    """forest -> path (.o).  Returns the assembler source path."""
-    info, abbrev, strb, loc = layout(forest)
+def write_object(forest, path, symbols_asm="", big=False):
+    """forest -> path (.o).  Returns the assembler source path.  big: a big-endian (s390x) object, assembled by clang."""
+    global BIG_ENDIAN
+    BIG_ENDIAN = big
+    try:
+        info, abbrev, strb, loc = layout(forest)
+    finally:
+        BIG_ENDIAN = False
     src = path[:-2] + ".s"
     with open(src, "w") as f:
         f.write("\t.text\n" + symbols_asm)
@@ -398,7 +408,10 @@ def write_object(forest, path, symbols_asm=""):
         # further sections as they are (forest.extra_sections: name -> list of bytes), e.g. range lists
         for name, data in sorted(getattr(forest, "extra_sections", {}).items()):
             f.write('\t.section %s,"",@progbits\n' % name + bytes_directive(list(data)))
-    subprocess.run(["as", "-o", path, src], check=True)
+    if big:
+        subprocess.run(["clang", "--target=s390x-linux-gnu", "-c", src, "-o", path], check=True, stderr=subprocess.DEVNULL)
+    else:
+        subprocess.run(["as", "-o", path, src], check=True)
     return src
 
 
